@@ -61,6 +61,14 @@ FIXED = {
     "composite operators use eigh": ("C01", "composite eigendecomposition via eig gave non-unitary diagonalizing gates for degenerate Hermitian sums/products (wrong expval(O @ O))"),
     "default.clifford density_matrix conjugates": ("C70", "default.clifford density_matrix was psi psi^T instead of psi psi^dagger"),
     "fuse_rot_angles clips": ("C17", "single_qubit_fusion produced Rot(.., nan, ..) when rounding pushed the fused cosine magnitude outside [0, 1]"),
+    "param_shift_hessian wraps a user-provided f0": ("C37", "param_shift_hessian(tape, f0=...) on a single-measurement tape: wrong diagonal entries (probs) / IndexError (expval)"),
+    "Dataset.write / read clear": ("C64", "stale attribute cache after Dataset.read(..., overwrite=True)"),
+    "assigning any value to an attribute of a read-only Dataset": ("C64", "read-only Dataset: list/dict/None/tuple/operator assignments leaked raw h5py errors and could poison the handle"),
+    "re-assigning an existing Dataset attribute": ("C64", "ds.a = 2 on an existing attribute raised OSError (name already exists)"),
+    "default.clifford analytic probs mask": ("C70", "default.clifford analytic probs zeroed states with a different prefix (operator precedence `a & b != c`)"),
+    "default.clifford mutual_info subtracts": ("C70", "default.clifford mutual_info returned S(A)+S(B) without -S(AB)"),
+    "compute_vjp_multi keeps autograd boxes": ("C37", "nested qp.jacobian (max_diff=2) of a multi-measurement QNode with a gradient transform under autograd returned all zeros"),
+    "clifford_t_decomposition maps PhaseShift(3 pi/4)": ("C15", "clifford_t_decomposition mapped PhaseShift(3pi/4) / PhaseShift(5pi/4) to a bare T-adjoint / T (error 2.0)"),
     "IntegerComparator(geq=False) matrix": ("C10", "IntegerComparator(value > 2**n, geq=False).matrix() raised ValueError"),
 }
 
@@ -101,6 +109,11 @@ KNOWN = [
     ("C67", "for-range-exclusive", {"for_range_exclusive": True}, "from_qasm3 runs `for i in [a:b]` without the end point b (OpenQASM 3 ranges are inclusive)"),
     ("C67", "import-wires", {"decl": "indexed", "custom_gate": True}, "from_qasm3: a user-defined gate applied to indexed register qubits (q[0], q[1]) acts on wires named after the gate's formal parameters"),
     ("C67", "unexpected-exception", {"where": "qasm_interpreter.py:_bind_quantum_parameter"}, "from_qasm3: a user-defined gate applied to indexed register qubits raises ValueError ('r0' is not in list) when nested in control flow"),
+    ("C12", "outside-gate-set", {"graph": True, "kept_unsolved": True}, "decompose with the graph system and strict=True keeps an operator without a decomposition path in the output with a warning instead of raising DecompositionError (strict not forwarded)"),
+    ("C12", "resource-estimate-mismatch", {"op": "C(Adjoint(Hadamard))"}, "DecompGraphSolution.resource_estimate(ctrl(adjoint(H))) differs from the emitted gates: flip_control_adjoint declares Adjoint(Controlled(H)) but qp.ctrl emits Adjoint(CH)"),
+    ("C14", "matrix-mismatch", {"kind": "two", "perturbed": True, "path": [0, 2]}, "two_qubit_decomposition loses accuracy (errors 1e-6 .. 1.5) for unitaries within ~1e-3 of the 0-CNOT class (tolerance on tr gamma) or near degenerate spectra on the 2-CNOT path"),
+    ("C14", "non-unitary-block", {"kind": "two"}, "two_qubit_decomposition emits non-unitary QubitUnitary blocks for near-boundary inputs (same root cause as the accuracy loss)"),
+    ("C15", "precision", {"fn": "rs", "eps_below_3e-7": True}, "rs_decomposition silently returns ~1e-3..1e-4 approximations for eps below ~3e-7 (frequent below 5e-8), independent of the trial budgets"),
     ("C28", "kraus-channel", {"channel": "ThermalRelaxationError", "regime": "t2>t1,tg>4*t2"}, "ThermalRelaxationError Kraus operators are not trace preserving for T2 > T1 and tg >> T2 (stability epsilon dominates)"),
     ("C28", "result-shape", {"batch1_csr_obs": True}, "expval(LinearCombination / SparseHamiltonian) with a broadcast parameter of batch size one loses the batch axis (math.squeeze in csr_dot_products; default.qubit has the same squeeze)"),
     ("C28", "kraus-complete", {"channel": "ThermalRelaxationError", "regime": "t2>t1,tg>4*t2"}, "ThermalRelaxationError Kraus operators are not trace preserving for T2 > T1 and tg >> T2 (stability epsilon dominates)"),
